@@ -110,3 +110,65 @@ Proof.
   unfold cum_step in Ec. destruct (oltb ROps _ _); [|discriminate].
   destruct (stream c); [discriminate|]. destruct (draw ROps (zlist c) _) as [[z' zl'] st'']. injection Ec as <- _. reflexivity.
 Qed.
+
+(* a run over ds1 ++ ds2 is the run over ds2 started from the state the run over ds1 reached *)
+Lemma run_app n m dt poisson (ds1 ds2 : list (sdata (T:=R))) : forall s,
+  run ROps n m dt poisson (ds1 ++ ds2) s =
+  let '(s1, a1) := run ROps n m dt poisson ds1 s in
+  let '(s2, a2) := run ROps n m dt poisson ds2 s1 in (s2, a1 ++ a2).
+Proof.
+  induction ds1 as [|d ds1 IH]; intros s; cbn [app run].
+  - destruct (run ROps n m dt poisson ds2 s) as [s2 a2]. reflexivity.
+  - destruct (step ROps n m dt poisson (dzeta d) (de0 d) (de1 d) (dlam d) (dC d) s) as [[[s1 W] hp] att].
+    rewrite IH. destruct (run ROps n m dt poisson ds1 s1) as [s1' a1].
+    destruct (run ROps n m dt poisson ds2 s1') as [s2 a2]. reflexivity.
+Qed.
+
+(* ---- whole Ehrenfest and cumulative runs ---- *)
+Lemma run_eh_invariants n m dt (ds : list (sdata (T:=R))) : forall s,
+  let sf := run_eh ROps n m dt ds s in
+  pact sf = pact s /\ ptime sf = ptime s + INR (length ds) * dt
+  /\ prho sf = exp_steps n (map (fun d => (dlam d, dC d, dt)) ds) (prho s).
+Proof.
+  induction ds as [|d ds IH]; intros s; cbn [run_eh length map].
+  - cbn. repeat split; try reflexivity. lra.
+  - pose proof (step_eh_props n m dt (de0 d) (de1 d) (dlam d) (dC d) s) as P.
+    destruct (step_eh ROps n m dt (de0 d) (de1 d) (dlam d) (dC d) s) as [s1 W] eqn:Es. cbn [fst].
+    destruct P as (Pa & Pt & Pr & _).
+    specialize (IH s1). cbv zeta in IH. destruct IH as (A & B & C). cbv zeta.
+    repeat split.
+    + rewrite A. exact Pa.
+    + rewrite B, Pt. rewrite S_INR. lra.
+    + rewrite C, Pr. reflexivity.
+Qed.
+
+Lemma step_cum_shape n m dt e0 e1 lam Cm (s s' : tstate (T:=R)) c c' hp att :
+  step_cum ROps n m dt e0 e1 lam Cm s c = (s', c', hp, att) ->
+  ptime s' = ptime s + dt /\ prho s' = exp_step ROps n lam Cm dt (prho s)
+  /\ pact s' = match att with Some (t, true) => t | _ => pact s end.
+Proof.
+  unfold step_cum. destruct (cum_step ROps c _) as [c1 a]. destruct a as [[[[tg|] z] p]|].
+  - unfold hop_to_it. destruct (hop_allowed _ _ _ _ _); intros H; injection H as <- <- <- <-; cbn; repeat split; reflexivity.
+  - intros H; injection H as <- <- <- <-; cbn; repeat split; reflexivity.
+  - intros H; injection H as <- <- <- <-; cbn; repeat split; reflexivity.
+Qed.
+
+Lemma run_cum_invariants n m dt (ds : list (sdata (T:=R))) : forall s c sf cf atts,
+  run_cum ROps n m dt ds s c = (sf, cf, atts) ->
+  length atts = length ds /\ ptime sf = ptime s + INR (length ds) * dt
+  /\ prho sf = exp_steps n (map (fun d => (dlam d, dC d, dt)) ds) (prho s)
+  /\ pact sf = follow (pact s) atts.
+Proof.
+  induction ds as [|d ds IH]; intros s c sf cf atts H.
+  - cbn in H. injection H as <- <- <-. cbn. repeat split; try reflexivity. lra.
+  - cbn [run_cum] in H.
+    destruct (step_cum ROps n m dt (de0 d) (de1 d) (dlam d) (dC d) s c) as [[[s1 c1] hp] att] eqn:Es.
+    destruct (run_cum ROps n m dt ds s1 c1) as [[sf' cf'] atts'] eqn:Er. injection H as <- <- <-.
+    destruct (IH s1 c1 sf' cf' atts' Er) as (I1 & I2 & I3 & I4).
+    destruct (step_cum_shape _ _ _ _ _ _ _ _ _ _ _ _ _ Es) as (Ht & Hr & Ha).
+    repeat split.
+    + cbn [length]. rewrite I1. reflexivity.
+    + rewrite I2, Ht. cbn [length]. rewrite S_INR. lra.
+    + rewrite I3, Hr. reflexivity.
+    + rewrite I4, Ha. reflexivity.
+Qed.
